@@ -573,6 +573,56 @@ impl Family for RoutingUnderFaults {
     }
 }
 
+/// texts of every length 0..=1300 (query, PREPARE, COM_INIT_DB, and the name of a USE statement,
+/// bare and back-quoted with a terminator): what reaches the shim must be the text, whatever buffer
+/// sizes or thresholds an implementation uses on the way
+struct TextLengths;
+impl TextLengths {
+    fn case(idx: u64) -> (usize, usize) {
+        let d = digits(idx, &[1301, 5]);
+        (d[0] as usize, d[1] as usize)
+    }
+}
+impl Family for TextLengths {
+    fn name(&self) -> String {
+        "texts-of-every-length".into()
+    }
+    fn len(&self) -> u64 {
+        1301 * 5
+    }
+    fn run(&self, idx: u64, st: &mut Stats) -> Result<(), Violation> {
+        let (n, kind) = Self::case(idx);
+        st.nontrivial += 1;
+        st.bump("texts_of_every_length");
+        let body: String = (0..n).map(|i| (b'a' + ((i * 5 + n) % 26) as u8) as char).collect();
+        let (cmd, want): (ClientCmd, Option<Cb>) = match kind {
+            0 => (q(format!("q{}", body).as_bytes()), Some(Cb::Query(format!("q{}", body)))),
+            1 => (ClientCmd::new(with_byte(COM_STMT_PREPARE, format!("id=1 p=0 {}", body).as_bytes())), Some(Cb::Prepare(format!("id=1 p=0 {}", body)))),
+            2 => (ClientCmd::new(with_byte(COM_INIT_DB, body.as_bytes())), Some(Cb::Init(body.clone()))),
+            3 => (q(format!("USE {}", body).as_bytes()), Some(Cb::Init(body.clone()))),
+            _ => (q(format!("USE `{}`;", body).as_bytes()), Some(Cb::Init(body.clone()))),
+        };
+        let conv = Conv::new(vec![cmd, ping()]);
+        let s = conv.stream();
+        let stream = Arc::new(s.bytes);
+        let mut sim = sim_for(&stream, vec![]);
+        sim.log_ops = false;
+        let o = run_conn(sim, ConnCfg::new(std_behave()));
+        st.transitions += 2;
+        let mut exp = vec![auth_cb()];
+        exp.extend(want);
+        check_exact(&o, &conv, &s.last_seq, &exp).map(|_| ()).map_err(|mut v| {
+            v.msg = format!("a text of {} bytes as {}: {}", n, ["query", "PREPARE text", "COM_INIT_DB name", "bare USE name", "back-quoted USE name with terminator"][kind], v.msg);
+            v
+        })
+    }
+    fn describe(&self, idx: u64) -> J {
+        let (n, kind) = Self::case(idx);
+        let k = ["query", "PREPARE text", "COM_INIT_DB name", "bare USE name", "back-quoted USE name with terminator"][kind];
+        json!({"text_bytes": n, "as": k})
+    }
+}
+
 pub fn build(quick: bool) -> Check {
     let alpha = alphabet();
     let n = alpha.len();
@@ -613,13 +663,14 @@ pub fn build(quick: bool) -> Check {
     families.push(Box::new(super::soak::Soak { label: "text-and-even", lens: super::soak::lens(quick), mixes: vec![super::soak::Mix::Text, super::soak::Mix::Even, super::soak::Mix::Silent], opts: super::soak::opts_all().into_iter().take(2).collect(), big: vec![] }));
     families.push(Box::new(UseFamily { spellings: use_spellings() }));
     families.push(Box::new(IdPairs));
+    families.push(Box::new(TextLengths));
     families.push(Box::new(Utf8Offsets));
     families.push(Box::new(ClientStatements));
     families.push(Box::new(RoutingUnderFaults::new()));
     Check {
         id: "C02",
         level: "model_checking",
-        rule: format!("all command sequences of length <= {} over an alphabet of {} commands (near-miss prefixes, invalid UTF-8, statement ids at width boundaries, COM_INIT_DB names with edge whitespace/backticks/semicolons, quit mid-sequence), 57 statements client libraries send on their own or that merely look like USE / SELECT @@ (as query and as prepare), and of length <= 6 (thorough: 7) over 8 statement commands (two statements of different shape prepared / executed / closed in every order), pipelined on one connection; every USE spelling of the stated grammar in 3 positions; every ordered pair of statement ids from a 24-value palette prepared, executed and closed in both orders; USE names ending/starting with every character U+00C0..U+00FF and 3-/4-byte characters; query / prepare / init-db / USE texts with a multi-byte character at every byte offset 0..12. Long scripted sessions: 130..4099 (thorough: up to 131101) ordinary commands of every kind on one connection in up to six mixes (even, prepare/close churn with growing ids, executions, long-data chunks, unanswered commands, text and library-answered commands) under several client/transport behaviours (pipelined, request ids advancing by 7, lock-step, 1..4093-byte reads, 7/11-byte writes), generated by a fixed rule, kept valid with the registry model and judged on the complete trace (callbacks with arguments, result, strict decode of every reply with its sequence ids). Oracle: routing model (exact callback log, run_on result, strict decode of all replies). Non-trivial = sequence mixes at least two command kinds.", if quick {4} else {5}, n),
+        rule: format!("texts of every length 0..1300 as query, PREPARE text, COM_INIT_DB name and USE name (bare; back-quoted with terminator); all command sequences of length <= {} over an alphabet of {} commands (near-miss prefixes, invalid UTF-8, statement ids at width boundaries, COM_INIT_DB names with edge whitespace/backticks/semicolons, quit mid-sequence), 57 statements client libraries send on their own or that merely look like USE / SELECT @@ (as query and as prepare), and of length <= 6 (thorough: 7) over 8 statement commands (two statements of different shape prepared / executed / closed in every order), pipelined on one connection; every USE spelling of the stated grammar in 3 positions; every ordered pair of statement ids from a 24-value palette prepared, executed and closed in both orders; USE names ending/starting with every character U+00C0..U+00FF and 3-/4-byte characters; query / prepare / init-db / USE texts with a multi-byte character at every byte offset 0..12. Long scripted sessions: 130..4099 (thorough: up to 131101) ordinary commands of every kind on one connection in up to six mixes (even, prepare/close churn with growing ids, executions, long-data chunks, unanswered commands, text and library-answered commands) under several client/transport behaviours (pipelined, request ids advancing by 7, lock-step, 1..4093-byte reads, 7/11-byte writes), generated by a fixed rule, kept valid with the registry model and judged on the complete trace (callbacks with arguments, result, strict decode of every reply with its sequence ids). Oracle: routing model (exact callback log, run_on result, strict decode of all replies). Non-trivial = sequence mixes at least two command kinds.", if quick {4} else {5}, n),
         assumptions: vec![
             "for text that is not valid UTF-8 the property only says it is never handed to the shim: both 'connection ends with an error' and 'command skipped' are accepted".into(),
             "mixed-case spellings (Select @@x, Use db) are not in the alphabet because the property does not say how they route".into(),
@@ -628,6 +679,6 @@ pub fn build(quick: bool) -> Check {
         exhaustive: true,
         caps_hit: vec![],
         families,
-        required: vec!["soak_sessions", "client_statements", "utf8_offsets", "id_pairs", "sequences_with_invalid_utf8", "sequences_ending_in_error", "use_spellings_run"],
+        required: vec!["texts_of_every_length", "soak_sessions", "client_statements", "utf8_offsets", "id_pairs", "sequences_with_invalid_utf8", "sequences_ending_in_error", "use_spellings_run"],
     }
 }
